@@ -10,6 +10,7 @@ PROPS=${*:-$PROP}
 export GOFLAGS=-mod=mod GOPROXY=off GOSUMDB=off GOTOOLCHAIN=local
 RES=$D/result.txt
 : > $RES.tmp
+if [ "$MODE" = detect ] && [ -f $RES ]; then grep '^validate' $RES >> $RES.tmp; fi
 if [ "$MODE" = validate ] || [ "$MODE" = both ]; then
   WT=/tmp/wt/val
   [ -d $WT ] || git -C /repo worktree add -q $WT HEAD
